@@ -701,22 +701,49 @@ func (g *guardEngine) discharge(s guardSite) string {
 	return ""
 }
 
+// stripSafeConvert removes integer conversions that cannot change the mathematical value:
+// same signedness to an equal or wider type, or unsigned to a strictly wider signed type.
+// uint64 → int (which can turn a huge length into a negative number) is NOT stripped.
+func stripSafeConvert(v ssa.Value) ssa.Value {
+	for {
+		c, ok := v.(*ssa.Convert)
+		if !ok {
+			return v
+		}
+		src, ok1 := c.X.Type().Underlying().(*types.Basic)
+		dst, ok2 := c.Type().Underlying().(*types.Basic)
+		if !ok1 || !ok2 || src.Info()&types.IsInteger == 0 || dst.Info()&types.IsInteger == 0 {
+			return v
+		}
+		ss, ds := intSize(src), intSize(dst)
+		su, du := src.Info()&types.IsUnsigned != 0, dst.Info()&types.IsUnsigned != 0
+		safe := (su == du && ds >= ss) || (su && !du && ds > ss)
+		// a non-negative length converted to an unsigned type of at least the same size
+		if !safe && !su && du && ds >= ss && lenArg(c.X) != nil {
+			safe = true
+		}
+		if !safe {
+			return v
+		}
+		v = c.X
+	}
+}
+
+func intSize(b *types.Basic) int {
+	switch b.Kind() {
+	case types.Int8, types.Uint8:
+		return 8
+	case types.Int16, types.Uint16:
+		return 16
+	case types.Int32, types.Uint32:
+		return 32
+	default:
+		return 64
+	}
+}
+
 func sameModConvert(a, b ssa.Value) bool {
-	for {
-		if c, ok := a.(*ssa.Convert); ok {
-			a = c.X
-			continue
-		}
-		break
-	}
-	for {
-		if c, ok := b.(*ssa.Convert); ok {
-			b = c.X
-			continue
-		}
-		break
-	}
-	return a == b
+	return stripSafeConvert(a) == stripSafeConvert(b)
 }
 
 func (g *guardEngine) sameThroughSlice(a, b ssa.Value) bool {
